@@ -153,3 +153,58 @@ impl Outcome {
         }
     }
 }
+
+impl Outcome {
+    /// One-line, lossless (for comparison purposes) text form, used to carry a
+    /// reference outcome from a pristine helper process.
+    pub fn to_line(&self) -> String {
+        match self {
+            Outcome::Ok(d) => {
+                let mut s = String::from("ok");
+                for (name, h, n) in &d.parts {
+                    s.push('\t');
+                    s.push_str(&format!("{}={:032x}:{}", name, h, n));
+                }
+                s
+            }
+            Outcome::Panic(m) => format!("panic\t{}", m.replace('\\', "\\\\").replace('\n', "\\n").replace('\t', " ")),
+        }
+    }
+
+    pub fn from_line(line: &str) -> Option<Outcome> {
+        let mut it = line.split('\t');
+        match it.next()? {
+            "ok" => {
+                let mut d = Digest::new();
+                for p in it {
+                    let (name, rest) = p.rsplit_once('=')?;
+                    let (h, n) = rest.split_once(':')?;
+                    d.parts.push((name.to_string(), u128::from_str_radix(h, 16).ok()?, n.parse().ok()?));
+                }
+                Some(Outcome::Ok(d))
+            }
+            "panic" => {
+                let m = it.next().unwrap_or("");
+                let mut out = String::new();
+                let mut chars = m.chars();
+                while let Some(c) = chars.next() {
+                    if c == '\\' {
+                        match chars.next() {
+                            Some('n') => out.push('\n'),
+                            Some('\\') => out.push('\\'),
+                            Some(o) => {
+                                out.push('\\');
+                                out.push(o)
+                            }
+                            None => out.push('\\'),
+                        }
+                    } else {
+                        out.push(c);
+                    }
+                }
+                Some(Outcome::Panic(out))
+            }
+            _ => None,
+        }
+    }
+}
